@@ -9,6 +9,7 @@ import (
 	authtypes "github.com/cosmos/cosmos-sdk/x/auth/types"
 	vestingtypes "github.com/cosmos/cosmos-sdk/x/auth/vesting/types"
 	"github.com/cosmos/cosmos-sdk/x/authz"
+	banktypes "github.com/cosmos/cosmos-sdk/x/bank/types"
 	govv1 "github.com/cosmos/cosmos-sdk/x/gov/types/v1"
 
 	bcntypes "github.com/unification-com/mainchain/x/beacon/types"
@@ -51,7 +52,7 @@ func (s *scen) blockEnd()                              { s.c.end(nil); s.c.commi
 
 func runScenarios() []monFailure {
 	var out []monFailure
-	for _, f := range []func() []monFailure{scenUpperCaseDecision, scenNestedOverflowPurchase, scenMixedModulesFee, scenDenomChange, scenVestingPurchaser, scenExtraDenomFee, scenGovPurchaser} {
+	for _, f := range []func() []monFailure{scenUpperCaseDecision, scenNestedOverflowPurchase, scenMixedModulesFee, scenDenomChange, scenVestingPurchaser, scenExtraDenomFee, scenGovPurchaser, scenMaxHeight, scenGovFundedExport} {
 		out = append(out, f()...)
 	}
 	return out
@@ -241,6 +242,130 @@ func scenGovPurchaser() []monFailure {
 			return s.failures
 		}
 		s.blockEnd()
+	}
+	return s.failures
+}
+
+// heights at the top of the uint64 range: after a record at 2^64-1 nothing can be recorded any more and every
+// earlier record stays as it was (the property's "max uint64" height choice).
+func scenMaxHeight() []monFailure {
+	s := &scen{c: newChain(fixedCfg()), name: "max-uint64-height"}
+	defer s.c.close()
+	c := s.c
+	s.blockStart(5 * time.Second)
+	s.tx(2, nundCoins(1000), wrktypes.NewMsgRegisterWrkChain("mon", "gh", "name", "geth", c.addrOf(2)))
+	rec := func(h uint64, hash string) txResult {
+		return s.tx(2, nundCoins(10), wrktypes.NewMsgRecordWrkChainBlock(1, h, hash, "p", "", "", "", c.addrOf(2)))
+	}
+	rec(7, "seven")
+	if r := rec(1<<64-1, "max"); r.Code != 0 {
+		s.fail("C07", 0, "a record at height 2^64-1 (above the last height) was refused: "+r.Log)
+	}
+	before7, _ := c.app.WrkchainKeeper.GetWrkChainBlock(c.ctx(), 1, 7)
+	beforeMax, _ := c.app.WrkchainKeeper.GetWrkChainBlock(c.ctx(), 1, 1<<64-1)
+	for _, h := range []uint64{1, 7, 8, 1<<64 - 2, 1<<64 - 1} {
+		if r := rec(h, "tampered"); r.Code == 0 {
+			s.fail("C07", 0, fmt.Sprintf("after a record at height 2^64-1, a record at height %d was accepted", h))
+		}
+	}
+	after7, ok7 := c.app.WrkchainKeeper.GetWrkChainBlock(c.ctx(), 1, 7)
+	afterMax, okMax := c.app.WrkchainKeeper.GetWrkChainBlock(c.ctx(), 1, 1<<64-1)
+	if !ok7 || !okMax || before7.String() != after7.String() || beforeMax.String() != afterMax.String() {
+		s.fail("C07", 0, "records at heights 7 / 2^64-1 changed after later submissions")
+	}
+	s.blockEnd()
+	return s.failures
+}
+
+// The export cap: a registration holding more than 20,000 records is exported with its newest 20,000 and
+// consistent counters; the chain started from the document must report counters that match what it holds.
+func scenBigExport() []monFailure {
+	cfg := fixedCfg()
+	cfg.wrkParams = wrktypes.NewParams(1000, 10, 5, "nund", 20003, 600000)
+	cfg.bcnParams = bcntypes.NewParams(1000, 10, 5, "nund", 20002, 600000)
+	s := &scen{c: newChain(cfg), name: "export-above-cap"}
+	defer s.c.close()
+	c := s.c
+	s.blockStart(5 * time.Second)
+	s.tx(2, nundCoins(1000), wrktypes.NewMsgRegisterWrkChain("mon", "gh", "name", "geth", c.addrOf(2)))
+	s.tx(3, nundCoins(1000), bcntypes.NewMsgRegisterBeacon("mon", "name", c.addrOf(3)))
+	s.blockEnd()
+	for blk := 0; blk < 41; blk++ {
+		s.blockStart(2 * time.Second)
+		for i := 0; i < 500; i++ {
+			k := uint64(blk*500 + i + 1)
+			if k > 20003 {
+				break
+			}
+			s.tx(2, nundCoins(10), wrktypes.NewMsgRecordWrkChainBlock(1, k, fmt.Sprintf("h%d", k), "", "", "", "", c.addrOf(2)))
+			if k <= 20002 {
+				s.tx(3, nundCoins(10), bcntypes.NewMsgRecordBeaconTimestamp(1, fmt.Sprintf("t%d", k), uint64(c.now.Unix()), c.addrOf(3)))
+			}
+		}
+		s.blockEnd()
+	}
+	wc, _ := c.app.WrkchainKeeper.GetWrkChain(c.committedCtx(), 1)
+	if wc.NumBlocks != 20003 {
+		s.fail("C15", 0, fmt.Sprintf("set-up: expected 20003 records in state, have %d", wc.NumBlocks))
+		return s.failures
+	}
+	old, problems := c.reimport()
+	_ = old
+	for _, p := range problems {
+		s.fail("C15", 0, p)
+	}
+	ctx := c.committedCtx()
+	check := func(name string, num, lowest, last uint64, stored []uint64) {
+		if uint64(len(stored)) != 20000 {
+			s.fail("C15", 0, fmt.Sprintf("%s: %d records after import, the newest 20000 were expected", name, len(stored)))
+			return
+		}
+		if num != uint64(len(stored)) || lowest != stored[0] || last != stored[len(stored)-1] {
+			s.fail("C15", 0, fmt.Sprintf("%s after import reports num %d lowest %d last %d, but holds %d records from %d to %d", name, num, lowest, last, len(stored), stored[0], stored[len(stored)-1]))
+			s.fail("C08", 0, fmt.Sprintf("%s counters after import do not match the store", name))
+		}
+	}
+	wc2, _ := c.app.WrkchainKeeper.GetWrkChain(ctx, 1)
+	var hs []uint64
+	for _, b := range c.app.WrkchainKeeper.GetAllWrkChainBlockHashes(ctx, 1) {
+		hs = append(hs, b.Height)
+	}
+	check("wrkchain 1", wc2.NumBlocks, wc2.LowestHeight, wc2.Lastblock, hs)
+	b2, _ := c.app.BeaconKeeper.GetBeacon(ctx, 1)
+	var ts []uint64
+	for _, t := range c.app.BeaconKeeper.GetAllBeaconTimestamps(ctx, 1) {
+		ts = append(ts, t.TimestampId)
+	}
+	check("beacon 1", b2.NumInState, b2.FirstIdInState, b2.LastTimestampId, ts)
+	// the next record on the imported chain must behave: nothing pruned below the limit
+	s.blockStart(2 * time.Second)
+	r := s.tx(2, nundCoins(10), wrktypes.NewMsgRecordWrkChainBlock(1, 20004, "h20004", "", "", "", "", c.addrOf(2)))
+	wc3, _ := c.app.WrkchainKeeper.GetWrkChain(c.ctx(), 1)
+	if r.Code != 0 || wc3.NumBlocks != 20001 {
+		s.fail("C15", 0, fmt.Sprintf("recording on the imported chain: code %d, %d in state (20001 expected, limit 20003)", r.Code, wc3.NumBlocks))
+	}
+	s.blockEnd()
+	return s.failures
+}
+
+// listed C15 finding: a plain transfer to the gov module account makes the exported state un-importable.
+func scenGovFundedExport() []monFailure {
+	s := &scen{c: newChain(fixedCfg()), name: "gov-account-funded-export"}
+	defer s.c.close()
+	c := s.c
+	s.blockStart(5 * time.Second)
+	r := s.tx(2, nundCoins(10), banktypes.NewMsgSend(c.addrOf(2), authtypes.NewModuleAddress("gov"), nundCoins(5)))
+	s.blockEnd()
+	if r.Code != 0 {
+		return s.failures
+	}
+	_, problems := c.reimport()
+	for _, p := range problems {
+		class := 0
+		if strings.Contains(p, "expected module account was") {
+			class = 1
+		}
+		s.fail("C15", class, p)
 	}
 	return s.failures
 }
